@@ -55,6 +55,12 @@ func genC03(t *rapid.T) C03Case {
 			"##!^ p##!> include %s",
 			"##!$ q ##!> include %s",
 			"##! ##!> include-except %s f1",
+			"##! + is not a flag line, %s",
+			"##! ^ is not a prefix line, %s",
+			"##! $ is not a suffix line, %s",
+			"##! > include %s",
+			"##! < %s",
+			"##! = > %s",
 		}).Draw(t, "ambigline")
 		pos := rapid.IntRange(0, len(g.Prog.Main)).Draw(t, "apos")
 		l := ragen.Line{K: ragen.KRaw, T: fmt.Sprintf(raw, file)}
